@@ -5,7 +5,7 @@
     are Model/Pred.v (tied to the Go code by the correspondence run).
     [FR x] is the real number the float64 [x] denotes; [detR a b c] the exact determinant. *)
 From Coq Require Import ZArith Reals Floats Bool.
-From Geo Require Import Base.GoPrim Base.F64 Base.Exact Gen.R3 Gen.S2Pred Model.Pred Proofs.C02_Exact Proofs.C02_Float Proofs.C02_SoS Proofs.C02_SoSGlobal Proofs.C02_RelErr.
+From Geo Require Import Base.GoPrim Base.F64 Base.Exact Gen.R3 Gen.S2Pred Model.Pred Proofs.C02_Exact Proofs.C02_Float Proofs.C02_SoS Proofs.C02_SoSGlobal Proofs.C02_RelErr Proofs.C02_TriageDet Proofs.C02_Robust.
 Local Open Scope R_scope.
 
 (** exact stage ------------------------------------------------------------------------- *)
@@ -70,8 +70,8 @@ Proof. exact exact_sign_dot_prod_spec. Qed.
 Print Assumptions exact_sign_dot_prod_is_exact.
 
 (** float stages under named hypotheses --------------------------------------------------
-    H_TRIAGE_DET / H_STABLE_DET / H_TRIAGE_COS / H_TRIAGE_SIN2 / H_TRIAGE_COS1 / H_TRIAGE_SIN21 /
-    H_TRIAGE_DOT are Prop-valued definitions in Proofs/C02_Float.v about float64 arithmetic
+    H_STABLE_DET / H_TRIAGE_COS / H_TRIAGE_SIN2 / H_TRIAGE_COS1 / H_TRIAGE_SIN21 (H_TRIAGE_DET and
+    H_TRIAGE_DOT are discharged) are Prop-valued definitions in Proofs/C02_Float.v about float64 arithmetic
     (error of the float determinant / dot product, soundness of the float comparisons);
     they appear as premises. [unit_pt p]: finite coordinates and | |p|^2 - 1 | <= 2^-44. *)
 Theorem triage_constant_is_large_enough :
@@ -89,9 +89,19 @@ Theorem dot_constant_is_large_enough : ffinite dotMaxErr = true /\ D2R K_DOT <= 
 Proof. exact dot_const_ok. Qed.
 Print Assumptions dot_constant_is_large_enough.
 
-Theorem triage_sign_never_wrong : H_TRIAGE_DET -> forall a b c, unit_pt a -> unit_pt b -> unit_pt c ->
+(** H-TRIAGE-DET is discharged (Flocq + real-number error analysis, (2.5 + 2/sqrt 3) u): CLOSED.
+    The exact sum x + y whose rounding is the float determinant is within
+    E0 + u/2 |det| of the exact determinant, E0 <= K_TRIAGE <= maxDeterminantError. *)
+Theorem float_determinant_error_bound : forall a b c, unit_pt a -> unit_pt b -> unit_pt c ->
+  exists x y, ffinite x = true /\ ffinite y = true /\ Rabs (FR x + FR y) <= 1000 /\
+    fdet a b c = (x + y)%float /\
+    Rabs (FR x + FR y - detR a b c) <= E0 + u / 2 * Rabs (detR a b c).
+Proof. exact triage_det_core. Qed.
+Print Assumptions float_determinant_error_bound.
+
+Theorem triage_sign_never_wrong : forall a b c, unit_pt a -> unit_pt b -> unit_pt c ->
   s2_triageSign a b c <> 0%Z -> s2_triageSign a b c = sgnR (detR a b c).
-Proof. exact triage_sound. Qed.
+Proof. exact triage_sound_closed. Qed.
 Print Assumptions triage_sign_never_wrong.
 
 Theorem stable_sign_never_wrong : H_STABLE_DET -> forall a b c, unit_pt a -> unit_pt b -> unit_pt c ->
@@ -114,29 +124,29 @@ Proof. exact H_STABLE_DET_OLD_refuted. Qed.
 Print Assumptions stable_sign_old_refuted.
 
 (** the repaired code: no guard on the inputs *)
-Theorem robust_sign_is_exact_sign : H_TRIAGE_DET -> H_STABLE_DET -> forall a b c,
+Theorem robust_sign_is_exact_sign : H_STABLE_DET -> forall a b c,
   unit_pt a -> unit_pt b -> unit_pt c ->
   robust_sign a b c = if identical2 a b c then 0%Z else exact_sign a b c.
 Proof. exact robust_sign_spec. Qed.
 Print Assumptions robust_sign_is_exact_sign.
 
-Theorem robust_sign_is_sign_of_nonzero_determinant : H_TRIAGE_DET -> H_STABLE_DET -> forall a b c,
+Theorem robust_sign_is_sign_of_nonzero_determinant : H_STABLE_DET -> forall a b c,
   unit_pt a -> unit_pt b -> unit_pt c ->
   detR a b c <> 0 -> robust_sign a b c = sgnR (detR a b c).
 Proof. exact robust_sign_det. Qed.
 Print Assumptions robust_sign_is_sign_of_nonzero_determinant.
 
-Theorem robust_sign_zero_iff_two_identical : H_TRIAGE_DET -> forall a b c,
+Theorem robust_sign_zero_iff_two_identical : forall a b c,
   unit_pt a -> unit_pt b -> unit_pt c -> (robust_sign a b c = 0%Z <-> identical2 a b c = true).
 Proof. exact robust_sign_zero_iff. Qed.
 Print Assumptions robust_sign_zero_iff_two_identical.
 
-Theorem robust_sign_rotation : H_TRIAGE_DET -> H_STABLE_DET -> forall a b c,
+Theorem robust_sign_rotation : H_STABLE_DET -> forall a b c,
   unit_pt a -> unit_pt b -> unit_pt c -> robust_sign b c a = robust_sign a b c.
 Proof. exact robust_sign_rotate. Qed.
 Print Assumptions robust_sign_rotation.
 
-Theorem robust_sign_swap_negates : H_TRIAGE_DET -> H_STABLE_DET -> forall a b c,
+Theorem robust_sign_swap_negates : H_STABLE_DET -> forall a b c,
   unit_pt a -> unit_pt b -> unit_pt c -> robust_sign c b a = (- robust_sign a b c)%Z.
 Proof. exact robust_sign_swap. Qed.
 Print Assumptions robust_sign_swap_negates.
